@@ -11,6 +11,9 @@
 //	rename-locals  every local variable, parameter and named result is renamed
 //	if-switch  an if / else-if / else chain becomes a tagless switch
 //	drop-else  if c { ...; return } else { B } becomes if c { ...; return }; B
+//	expand-assign  x += y becomes x = x + (y)
+//	parens     clarifying parentheses around nested binary operands
+//	var-decl   x := v becomes var x = v
 //	guard      a trailing if c { A } becomes if !(c) { return / continue }; A
 //	minmax     x := A; if B < x { x = B } becomes x := min(A, B)
 //	rangeint   for i := 0; i < N; i++ becomes for i := range N
@@ -439,6 +442,68 @@ func main() {
 							is.Else = nil
 							rest := append([]ast.Stmt{}, blk.List[k+1:]...)
 							blk.List = append(append(blk.List[:k+1], eb.List...), rest...)
+							n++
+						}
+					}
+				case "expand-assign":
+					// x += y  ->  x = x + y   (and -=, *=, |=, &=) when x is an identifier or selector without calls
+					if as, ok := node.(*ast.AssignStmt); ok && len(as.Lhs) == 1 && len(as.Rhs) == 1 {
+						var op token.Token
+						switch as.Tok {
+						case token.ADD_ASSIGN:
+							op = token.ADD
+						case token.SUB_ASSIGN:
+							op = token.SUB
+						case token.MUL_ASSIGN:
+							op = token.MUL
+						case token.OR_ASSIGN:
+							op = token.OR
+						case token.AND_ASSIGN:
+							op = token.AND
+						}
+						pure := true
+						ast.Inspect(as.Lhs[0], func(m ast.Node) bool {
+							switch m.(type) {
+							case *ast.CallExpr, *ast.IndexExpr:
+								pure = false
+							}
+							return true
+						})
+						if op != token.ILLEGAL && pure {
+							as.Rhs[0] = &ast.BinaryExpr{X: as.Lhs[0], Op: op, Y: &ast.ParenExpr{X: as.Rhs[0]}}
+							as.Tok = token.ASSIGN
+							n++
+						}
+					}
+				case "parens":
+					// clarifying parentheses around nested binary operands: a%b%c -> (a%b)%c, a+b*c -> a+(b*c)
+					if be, ok := node.(*ast.BinaryExpr); ok {
+						if _, ok := be.X.(*ast.BinaryExpr); ok {
+							be.X = &ast.ParenExpr{X: be.X}
+							n++
+						}
+						if _, ok := be.Y.(*ast.BinaryExpr); ok {
+							be.Y = &ast.ParenExpr{X: be.Y}
+							n++
+						}
+					}
+				case "var-decl":
+					// x := v  ->  var x = v   in statement lists (single variable, not in a for / if / switch header)
+					if blk, ok := node.(*ast.BlockStmt); ok {
+						for k, st := range blk.List {
+							as, ok := st.(*ast.AssignStmt)
+							if !ok || as.Tok != token.DEFINE || len(as.Lhs) != 1 || len(as.Rhs) != 1 {
+								continue
+							}
+							id, ok := as.Lhs[0].(*ast.Ident)
+							if !ok || id.Name == "_" {
+								continue
+							}
+							// an untyped constant would keep its default type either way; nil has no type for var x = nil
+							if tv, ok := p.TypesInfo.Types[as.Rhs[0]]; ok && tv.IsNil() {
+								continue
+							}
+							blk.List[k] = &ast.DeclStmt{Decl: &ast.GenDecl{Tok: token.VAR, Specs: []ast.Spec{&ast.ValueSpec{Names: []*ast.Ident{id}, Values: []ast.Expr{as.Rhs[0]}}}}}
 							n++
 						}
 					}
